@@ -207,6 +207,7 @@ func riskMsg(c *ev.Case, ctx *lib.Ctx) (*gen.Msg, string) {
 
 func runCodec(t *testing.T, prop string, c01, c02 bool) *ev.Rec {
 	rec := ev.Open(t, prop)
+	refcodecSelfCheck(t)
 	ctxs := contexts(t)
 	n := rec.N(60000, 4000000)
 	if rec.Race() {
